@@ -46,7 +46,27 @@ SizesFam == [k \in 1..(15 * 8 * 3 * 8) |->
 TablesFam == [k \in 1..512 |-> LET v == (k - 1) % 256 IN
    IF k <= 256 THEN Case(9000 + k, "tables", 0, v, 0, 0, 8 * 1024 * 1024) ELSE Case(9000 + k, "tables", 0, 0, v, 0, 32768)]
 
-All == ChecksumFam \o TypeFam \o SizesFam \o TablesFam
+\* family "bytes": the checksum is a sum over bytes 0x134-0x14C, so every byte value matters at every position:
+\* a header filled with one value v (all 256), and a single 0xFF / 0x00 / 0x80 at each of the 25 positions
+FillHdr(v, t, delta) ==
+  LET base == [i \in 1..80 |-> IF i = 72 THEN t ELSE IF i = 73 \/ i = 74 THEN 0 ELSE IF i = 78 THEN 0
+                               ELSE IF i <= 4 THEN <<0, 195, 80, 1>>[i] ELSE IF i >= 53 /\ i <= 77 THEN v ELSE 0]
+      good == HeaderChecksum(base)
+  IN [base EXCEPT ![78] = (good + delta) % 256]
+OneHdr(pos, v, delta) ==
+  LET base == [i \in 1..80 |-> IF i = 72 \/ i = 73 \/ i = 74 THEN (IF i = pos THEN v % 2 ELSE 0) ELSE IF i = 78 THEN 0
+                               ELSE IF i <= 4 THEN <<0, 195, 80, 1>>[i] ELSE IF i = pos THEN v ELSE IF i >= 53 /\ i <= 63 THEN 65 ELSE 0]
+      good == HeaderChecksum(base)
+  IN [base EXCEPT ![78] = (good + delta) % 256]
+RawCase(id, fam, h, fileLen) ==
+  [id |-> id, fam |-> fam, hdr |-> h, fileLen |-> fileLen, exp |-> Load(fileLen, h),
+   romsize |-> Declared(h[73]), ramsize |-> RamBytesOfCode(h[74]), kind |-> KindOfType(h[72])]
+Deltas == <<0, 1, 255>>
+BytesFam == [k \in 1..(256 * 3) |-> RawCase(12000 + k, "bytes", FillHdr((k - 1) % 256, 0, Deltas[((k - 1) \div 256) + 1]), 32768)]
+            \o [k \in 1..(25 * 3 * 3) |-> LET i == k - 1 IN
+                  RawCase(13000 + k, "bytes", OneHdr(53 + (i % 25), <<255, 0, 128>>[((i \div 25) % 3) + 1], Deltas[(i \div 75) + 1]), 32768)]
+
+All == ChecksumFam \o TypeFam \o SizesFam \o TablesFam \o BytesFam
 \* model-level sanity: acceptance implies a valid checksum, a supported type and a file at least as long as declared
 ASSUME \A i \in 1..Len(All) : All[i].exp.ok =>
           (HeaderChecksum(All[i].hdr) = All[i].hdr[78] /\ All[i].kind # "unsupported" /\ All[i].fileLen >= All[i].romsize)
